@@ -139,6 +139,34 @@ theorem inv_start {c : Config} {s : St} (hr : Reachable c s) : InvStart s := by
       | assumption
       | (simp_all [StartPc.beforeStart, StartPc.afterNewRenderer]; done)
 
+/-- I2 (continued): a loop that has begun and has not exited belongs to a Run that is in its loop (in
+particular while the loop is inside an Exec); the renderer exists from the third stage of the
+start-up on -/
+structure InvLive (s : St) : Prop where
+  live : s.el ≠ .notStarted → (∀ c, s.el ≠ .exited c) → s.runPc = .loop
+  unmade : s.rendererMade = false → s.runPc = .starting .sigHandler ∨ s.runPc = .starting .newRenderer
+
+theorem inv_live {c : Config} {s : St} (hr : Reachable c s) : InvLive s := by
+  refine reachable_induct InvLive ?_ ?_ hr
+  · constructor <;> simp [init0]
+  · intro s s' l _ ih hs
+    obtain ⟨h1, h2⟩ := ih
+    step_cases hs l
+    all_goals constructor
+    all_goals first
+      | assumption
+      | (simp_all; done)
+
+/-- while the loop is inside an Exec, Run is in its loop and the renderer exists -/
+theorem exec_in_loop {c : Config} {s : St} (hr : Reachable c s) (h : s.el.inExec = true) :
+    s.runPc = .loop ∧ s.rendererMade = true := by
+  have hl : s.runPc = .loop :=
+    (inv_live hr).live (by intro h'; rw [h'] at h; cases h) (by intro c h'; rw [h'] at h; cases h)
+  refine ⟨hl, ?_⟩
+  cases hm : s.rendererMade with
+  | true => rfl
+  | false => rcases (inv_live hr).unmade hm with h' | h' <;> rw [hl] at h' <;> cases h'
+
 /-! ### I2': the renderer's listen goroutine -/
 
 /-- I2': the listen goroutine has been started (and possibly halted) only after the renderer was
@@ -155,6 +183,7 @@ theorem inv_listen {c : Config} {s : St} (hr : Reachable c s) :
       | assumption
       | (simp_all; done)
       | exact fun _ => S.made _ (by assumption) rfl
+      | exact fun _ => (exec_in_loop hrs (by simp_all [ElPc.inExec])).2
 
 /-! ### I3: Run's tail and error -/
 
@@ -225,13 +254,15 @@ theorem terminating_stable {s s' : St} {l : Label} (hs : step s l = some s')
 
 /-- the lifecycle labels that move the termination forward (everything except message
 hand-overs to a running loop and the returns of API callers); the internal steps of Run's start-up
-are among them: a Run that is starting up when termination begins goes on to its loop, which then
-sees the cancelled context -/
+and of an Exec are among them: a Run that is starting up, a loop that is inside an Exec when
+termination begins goes on - to the loop, to Update -, and then sees the cancelled context -/
 def progressLabel : Label → Bool
   | .elCtxExit | .elCmdAbort | .runTail | .shCancel _ | .shHandlers _ | .shReader _ | .shWaitRead _
   | .shWaitReadTimeout _ | .shRenderer _ | .shRestore _ | .runReturn | .dispExit | .sigExit | .sigAbort
   | .resizeExit | .initAbort | .readerMsgAbort | .readerErrAbort | .readerCanceled
-  | .suSigHandler | .suNewRenderer | .suStartRenderer | .suSpawnInit | .suOpenReader | .suSpawnHandlers => true
+  | .suSigHandler | .suNewRenderer | .suStartRenderer | .suSpawnInit | .suOpenReader | .suSpawnHandlers
+  | .exRelCancel | .exRelWaitRead | .exRelWaitTimeout | .exRelRenderer | .exRelRestore
+  | .exResReader | .exResRenderer | .exResSpawn => true
   | _ => false
 
 /-- the returns of the user code Run calls during its start-up (the writer of the mode sequences,
@@ -240,20 +271,37 @@ def startupReturn : Label → Bool
   | .startWriterReturns | .initReturns | .firstViewReturns => true
   | _ => false
 
-/-- the alphabet of the schedules that bring Run to its return: progress steps, and - during the
-start-up - the returns of the start-up's user code -/
-def scheduleLabel (l : Label) : Bool := progressLabel l || startupReturn l
+/-- the returns of user code on the goroutines a shutdown depends on: filter / Update, View, the
+output writer, the user code of the start-up, the command of an Exec -/
+def userReturn : Label → Bool
+  | .callbackReturns | .viewReturns | .writerReturns | .startWriterReturns | .initReturns
+  | .firstViewReturns | .execCmdReturns => true
+  | _ => false
+
+/-- the alphabet of the schedules that bring Run to its return: progress steps and the returns of
+user code (in progress, or - during the start-up or an Exec - still to be called) -/
+def scheduleLabel (l : Label) : Bool := progressLabel l || userReturn l
+
+/-- the alphabet that suffices while the loop is not inside an Exec and not inside user code: progress
+steps and the returns of the start-up's user code -/
+def startupScheduleLabel (l : Label) : Bool := progressLabel l || startupReturn l
+
+theorem startupScheduleLabel_schedule (l : Label) (h : startupScheduleLabel l = true) :
+    scheduleLabel l = true := by
+  cases l <;> first | rfl | cases h
 
 theorem progress_isLifecycle (l : Label) (h : progressLabel l = true) : l.isLifecycle = true := by
   cases l <;> first | rfl | cases h
 
-/-- the progress steps after which Run is inside user code of the start-up -/
-def entersStartupCode : Label → Bool
-  | .suNewRenderer | .suStartRenderer | .suSpawnInit => true
+/-- the progress steps after which a goroutine is inside user code: Run inside the writer of the
+mode sequences, Init, the first View; the loop waiting for the command of an Exec, inside Update
+with the execMsg -/
+def entersUserCode : Label → Bool
+  | .suNewRenderer | .suStartRenderer | .suSpawnInit | .exRelRestore | .exResSpawn => true
   | _ => false
 
 /-- no user code in progress on the loop or the listen goroutine (`NoCallback` without the clauses
-about Run's start-up) -/
+about Run's start-up and the command of an Exec) -/
 def LoopQuiet (s : St) : Prop :=
   s.el ≠ .callback ∧ s.el ≠ .view ∧ s.listen ≠ .flushing
 
@@ -263,47 +311,65 @@ theorem NoCallback.loopQuiet {s : St} (h : NoCallback s) : LoopQuiet s := ⟨h.1
 def InStartupCode (s : St) : Prop :=
   s.runPc = .starting .modeWrites ∨ s.runPc = .starting .initCall ∨ s.runPc = .starting .firstView
 
-theorem noCallback_iff (s : St) : NoCallback s ↔ (LoopQuiet s ∧ ¬ InStartupCode s) := by
+theorem noCallback_iff (s : St) : NoCallback s ↔ (LoopQuiet s ∧ ¬ InStartupCode s ∧ s.el ≠ .execCmd) := by
   unfold NoCallback LoopQuiet InStartupCode
   constructor
-  · rintro ⟨a, b, c, d, e, f⟩
-    exact ⟨⟨a, b, c⟩, fun h => by rcases h with h | h | h <;> contradiction⟩
-  · rintro ⟨⟨a, b, c⟩, h⟩
-    exact ⟨a, b, c, fun x => h (Or.inl x), fun x => h (Or.inr (Or.inl x)), fun x => h (Or.inr (Or.inr x))⟩
+  · rintro ⟨a, b, c, d, e, f, g⟩
+    exact ⟨⟨a, b, c⟩, fun h => by rcases h with h | h | h <;> contradiction, g⟩
+  · rintro ⟨⟨a, b, c⟩, h, g⟩
+    exact ⟨a, b, c, fun x => h (Or.inl x), fun x => h (Or.inr (Or.inl x)), fun x => h (Or.inr (Or.inr x)), g⟩
 
-/-- progress steps start no user code, except the three steps of the start-up after which Run is
-inside the writer of the mode sequences, Init, the first View -/
+/-- progress steps start no user code, except the steps after which - by construction - Run is
+inside the user code of its start-up, the loop waits for the command of an Exec or is inside Update -/
 theorem noCallback_progress {s s' : St} {l : Label} (hp : progressLabel l = true)
-    (hne : entersStartupCode l = false)
+    (hne : entersUserCode l = false)
     (hs : step s l = some s') (h : NoCallback s) : NoCallback s' := by
   unfold NoCallback at h ⊢
   step_cases hs l
   all_goals first
     | (simp [progressLabel] at hp; done)
-    | (simp [entersStartupCode] at hne; done)
+    | (simp [entersUserCode] at hne; done)
     | (simp_all; done)
+    | (refine ⟨h.1, h.2.1, ?_, h.2.2.2⟩; split <;> simp_all)
 
-/-- progress steps and the returns of the start-up's user code start no user code on the loop or
-the listen goroutine -/
+/-- progress steps and the returns of user code start no user code on the loop or the listen
+goroutine - except the last step of an Exec, after which the loop is inside Update -/
 theorem loopQuiet_schedule {s s' : St} {l : Label} (hp : scheduleLabel l = true)
+    (hne : l ≠ .exResSpawn)
     (hs : step s l = some s') (h : LoopQuiet s) : LoopQuiet s' := by
   unfold LoopQuiet at h ⊢
   step_cases hs l
   all_goals first
-    | (simp [scheduleLabel, progressLabel, startupReturn] at hp; done)
+    | (simp [scheduleLabel, progressLabel, userReturn] at hp; done)
+    | exact absurd rfl hne
     | (simp_all; done)
     | (refine ⟨h.1, h.2.1, ?_⟩; split <;> simp_all)
+    | (refine ⟨by simp, by simp, ?_⟩; split <;> simp_all)
 
-/-- once Run is past its start-up, progress steps start no user code at all -/
+/-- outside an Exec, progress steps and the returns of the start-up's user code start no user code on
+the loop or the listen goroutine, and start no Exec -/
+theorem quiet_startupSchedule {s s' : St} {l : Label} (hp : startupScheduleLabel l = true)
+    (hs : step s l = some s') (h : LoopQuiet s) (hex : s.el.inExec = false) :
+    LoopQuiet s' ∧ s'.el.inExec = false := by
+  unfold LoopQuiet at h ⊢
+  step_cases hs l
+  all_goals first
+    | (simp [startupScheduleLabel, progressLabel, startupReturn] at hp; done)
+    | (simp_all [ElPc.inExec]; done)
+    | (refine ⟨⟨h.1, h.2.1, ?_⟩, hex⟩; split <;> simp_all)
+
+/-- once Run is past its start-up and the loop is not inside an Exec, progress steps start no user
+code at all -/
 theorem noCallback_progress_past {s s' : St} {l : Label} (hp : progressLabel l = true)
-    (hs : step s l = some s') (hpast : ∀ p, s.runPc ≠ .starting p) (h : NoCallback s) :
-    NoCallback s' ∧ ∀ p, s'.runPc ≠ .starting p := by
+    (hs : step s l = some s') (hpast : ∀ p, s.runPc ≠ .starting p) (hex : s.el.inExec = false)
+    (h : NoCallback s) :
+    NoCallback s' ∧ (∀ p, s'.runPc ≠ .starting p) ∧ s'.el.inExec = false := by
   unfold NoCallback at h ⊢
   step_cases hs l
   all_goals first
     | (simp [progressLabel] at hp; done)
     | (exact absurd (by assumption) (hpast _); done)
-    | (simp_all; done)
+    | (simp_all [ElPc.inExec]; done)
 
 def phaseW : ShPhase → Nat
   | .cancel => 6 | .waitHandlers => 5 | .reader => 4 | .waitRead => 3 | .renderer => 2
@@ -324,8 +390,13 @@ def runW (s : St) : Nat :=
   | .tail => phaseW s.runSh + 1
   | .returned => 0
 
+/-- the loop: one until it has exited; inside an Exec two per remaining phase on top (a phase of
+RestoreTerminal starts a read loop) -/
 def elW : ElPc → Nat
   | .exited _ => 0
+  | .execRelease .cancelReader => 17 | .execRelease .waitRead => 15 | .execRelease .renderer => 13
+  | .execRelease .restore => 11 | .execCmd => 9
+  | .execRestore .reader => 7 | .execRestore .renderer => 5 | .execRestore .spawn => 3
   | _ => 1
 
 def sigW : SigPc → Nat
@@ -342,10 +413,26 @@ def readW : ReadPc → Nat
 
 def killersW (ks : List ShPhase) : Nat := (ks.map phaseW).sum
 
+/-- an Exec message that the loop has not received yet: the sixteen its Exec adds to the loop's share -/
+def callerW (c : Caller) : Nat :=
+  match c.kind, c.pc with
+  | .exec, .returned => 0
+  | .exec, _ => 16
+  | _, _ => 0
+
+def sendersW (ss : List Caller) : Nat := (ss.map callerW).sum
+
+/-- user code in progress on the loop (or to be entered by the Exec in progress) and on the listen
+goroutine: the returns a schedule needs on top of the rank -/
+def pendW (s : St) : Nat :=
+  (match s.el with
+    | .callback | .view | .execRelease _ | .execCmd | .execRestore _ => 1
+    | _ => 0) + (if s.listen = .flushing then 1 else 0)
+
 /-- the amount of termination work left -/
 def rank (s : St) : Nat :=
   runW s + killersW s.killers + elW s.el + (if s.dispAlive = true then 1 else 0) + sigW s.sig
-    + hW s.resize + hW s.initG + readW s.reader
+    + hW s.resize + hW s.initG + readW s.reader + sendersW s.senders
 
 theorem killersW_set {ks : List ShPhase} {j : Nat} {x y : ShPhase} (h : ks[j]? = some y) :
     killersW (ks.set j x) + phaseW y = killersW ks + phaseW x := by
@@ -364,7 +451,33 @@ theorem killersW_set {ks : List ShPhase} {j : Nat} {x y : ShPhase} (h : ks[j]? =
       simp only [killersW, List.set_cons_succ, List.map_cons, List.sum_cons] at this ⊢
       omega
 
-theorem elW_le_one (x : ElPc) : elW x ≤ 1 := by cases x <;> simp [elW]
+theorem sendersW_set {ss : List Caller} {j : Nat} {x y : Caller} (h : ss[j]? = some y) :
+    sendersW (ss.set j x) + callerW y = sendersW ss + callerW x := by
+  induction ss generalizing j with
+  | nil => simp at h
+  | cons a ss ih =>
+    cases j with
+    | zero =>
+      simp only [List.getElem?_cons_zero, Option.some.injEq] at h
+      subst h
+      simp only [sendersW, List.set_cons_zero, List.map_cons, List.sum_cons]
+      omega
+    | succ j =>
+      simp only [List.getElem?_cons_succ] at h
+      have := ih h
+      simp only [sendersW, List.set_cons_succ, List.map_cons, List.sum_cons] at this ⊢
+      omega
+
+theorem sendersW_append (ss ts : List Caller) : sendersW (ss ++ ts) = sendersW ss + sendersW ts := by
+  simp [sendersW]
+
+theorem sendersW_user1 : sendersW [{ kind := .user, pc := .blocked }] = 0 := rfl
+theorem sendersW_user2 :
+    sendersW [{ kind := .user, pc := .blocked }, { kind := .user, pc := .blocked }] = 0 := rfl
+theorem pendW_le_two (s : St) : pendW s ≤ 2 := by
+  unfold pendW
+  split <;> split <;> omega
+
 theorem sigW_le_one (x : SigPc) : sigW x ≤ 1 := by cases x <;> simp [sigW]
 theorem hW_le_one (x : HPc) : hW x ≤ 1 := by cases x <;> simp [hW]
 theorem readW_le_one (x : ReadPc) : readW x ≤ 1 := by cases x <;> simp [readW]
